@@ -125,3 +125,33 @@ def p_poison(x, marker=None):
     if x == 99:
         raise ValueError('poison', x)
     return x * 10
+
+
+# ---- C05: echo targets -----------------------------------------------------------------------------------------------
+def echo(*a, **k):
+    if a and a[0] == 'POISON':
+        raise ValueError('poisoned')
+    return [list(a), sorted([kk, vv] for kk, vv in k.items())]
+
+
+def echo_mut(*a, **k):
+    """Returns what it was called with, then vandalises every mutable argument in place."""
+    import copy
+    if a and a[0] == 'POISON':
+        raise ValueError('poisoned')
+    snap = copy.deepcopy([list(a), sorted([kk, vv] for kk, vv in k.items())])
+    for x in a:
+        if isinstance(x, list):
+            x.append('dirty')
+        elif isinstance(x, dict):
+            x['dirty'] = 1
+    for x in k.values():
+        if isinstance(x, list):
+            x.append('dirty')
+        elif isinstance(x, dict):
+            x['dirty'] = 1
+    return snap
+
+
+def falsy(x=None, **k):
+    return {0: None, 1: '', 2: 0, 3: [], 4: b'y' * (1 << 20)}.get(x, x)
